@@ -57,6 +57,9 @@ pub struct Style {
     pub indent: u8,  // 0 none, 1 two spaces, 2 tab
     pub blank: bool, // blank line between rules
     pub comment: u8, // 0 none, 1 `# c` own line, 2 `% c` at end of the first depth-0 line, 3 `// c` likewise
+    /// between the lines of one rule: 0 nothing, 1 a blank line after every break,
+    /// 2 a comment-only line after every break that is outside parentheses and brackets
+    pub inner: u8,
 }
 
 pub fn render(rule_texts: &[String], subsets: &[u64], st: Style) -> String {
@@ -83,6 +86,15 @@ pub fn render(rule_texts: &[String], subsets: &[u64], st: Style) -> String {
                 }
                 out.push_str(&line);
                 out.push('\n');
+                if st.inner == 1 {
+                    out.push('\n');
+                } else if st.inner == 2 && depth[i] == 0 {
+                    out.push_str(match i % 3 {
+                        0 => "# a comment between two lines of a rule.\n",
+                        1 => "   % another one (\n",
+                        _ => "\t// and a third\n",
+                    });
+                }
                 line.clear();
                 line.push_str(match st.indent {
                     0 => "",
@@ -141,11 +153,15 @@ pub enum Loaded {
 }
 
 pub fn load_and_compare(path: &std::path::Path, file_text: &str, expect: &suiron::KnowledgeBase) -> Loaded {
+    load_into(path, file_text, expect, suiron::KnowledgeBase::new())
+}
+
+/// Load the file into a knowledge base that already holds rules.
+pub fn load_into(path: &std::path::Path, file_text: &str, expect: &suiron::KnowledgeBase, mut kb: suiron::KnowledgeBase) -> Loaded {
     if std::fs::write(path, file_text).is_err() {
         return Loaded::Panic("cannot write scratch file".into());
     }
     let p = path.to_string_lossy().into_owned();
-    let mut kb = suiron::KnowledgeBase::new();
     match catch_unwind(AssertUnwindSafe(|| suiron::load_kb_from_file(&mut kb, &p))) {
         Err(pn) => Loaded::Panic(panic_text(pn)),
         Ok(Some(msg)) => Loaded::Rejected(msg),
@@ -196,6 +212,11 @@ fn features(rule_texts: &[String], subsets: &[u64], st: Style) -> String {
             2 => "comment-percent",
             _ => "comment-slashes",
         })
+    }
+    if st.inner == 1 {
+        f.push("blank-line-inside-rule")
+    } else if st.inner == 2 {
+        f.push("comment-line-inside-rule")
     }
     f.sort();
     f.join("+")
@@ -263,13 +284,18 @@ pub fn worker_c21(tier: &str) {
         for indent in 0..3u8 {
             for blank in [false, true] {
                 for comment in 0..4u8 {
-                    v.push(Style { indent, blank, comment });
+                    v.push(Style { indent, blank, comment, inner: 0 });
                 }
             }
         }
+        for inner in 1..3u8 {
+            v.push(Style { indent: 1, blank: false, comment: 0, inner });
+            v.push(Style { indent: 0, blank: true, comment: 2, inner });
+            v.push(Style { indent: 2, blank: false, comment: 1, inner });
+        }
         v
     };
-    let plain = Style { indent: 1, blank: false, comment: 0 };
+    let plain = Style { indent: 1, blank: false, comment: 0, inner: 0 };
     let mut e = Emit { w: &mut w, emitted: HashMap::new() };
 
     for prog in &programs {
@@ -312,7 +338,7 @@ pub fn worker_c21(tier: &str) {
             let mut idxs = vec![0usize; prog.len()];
             'outer: loop {
                 let subs: Vec<u64> = idxs.iter().enumerate().map(|(i, &j)| per_rule[i][j]).collect();
-                for st in [plain, Style { indent: 2, blank: true, comment: 2 }, Style { indent: 0, blank: false, comment: 3 }, Style { indent: 0, blank: true, comment: 1 }] {
+                for st in [plain, Style { indent: 2, blank: true, comment: 2, inner: 0 }, Style { indent: 0, blank: false, comment: 3, inner: 1 }, Style { indent: 0, blank: true, comment: 1, inner: 2 }] {
                     layouts.push((subs.clone(), st));
                 }
                 for i in (0..idxs.len()).rev() {
@@ -353,6 +379,40 @@ pub fn worker_c21(tier: &str) {
                 e.w.emit(json!({"t":"sample","v":{"file": text}}));
             }
         }
+        // a program spread over two sources: the first k rules are already in the knowledge
+        // base (added through the API, or loaded from a file of their own) when the rest is loaded
+        if prog.len() >= 2 {
+            for k in 1..prog.len() {
+                for first_from_file in [false, true] {
+                    let mut kb0 = suiron::KnowledgeBase::new();
+                    if first_from_file {
+                        let t1 = render(&prog[..k], &[], plain);
+                        if std::fs::write(&path, &t1).is_err() {
+                            continue;
+                        }
+                        let p = path.to_string_lossy().into_owned();
+                        match catch_unwind(AssertUnwindSafe(|| suiron::load_kb_from_file(&mut kb0, &p))) {
+                            Ok(None) => {}
+                            _ => continue, // judged by the single-file layouts above
+                        }
+                    } else {
+                        let Some(k0) = expected_kb(&prog[..k]) else { continue };
+                        kb0 = k0;
+                    }
+                    let text = render(&prog[k..], &[], plain);
+                    e.w.count("c21.files_loaded", 1);
+                    e.w.count("c21.loads_into_nonempty_kb", 1);
+                    let feats = format!("second-source:{}", if first_from_file { "after-file" } else { "after-add_rules" });
+                    let wit = json!({"engine":"e4","kind":"c21","rules":prog,"file":text,"preloaded":k,"preload_from_file":first_from_file});
+                    match load_into(&path, &text, &expect, kb0) {
+                        Loaded::Same => e.w.distinct("outcomes", &("same", feats)),
+                        Loaded::Rejected(m) => e.viol("C21", format!("rejected-legal-layout:{}", feats), format!("a legal file was rejected: {} — file:\n{}", m, text), wit),
+                        Loaded::Different(kb) => e.viol("C21", format!("different-rules:{}", feats), format!("loading the last {} rules of {:?} into a knowledge base holding the first {} gave:\n{}", prog.len() - k, prog, k, kb), wit),
+                        Loaded::Panic(m) => e.viol("C21", format!("panic:{}", feats), format!("load_kb_from_file panicked: {}", m), wit),
+                    }
+                }
+            }
+        }
     }
     let _ = std::fs::remove_file(&path);
     w.done();
@@ -373,8 +433,13 @@ pub fn replay_c21(wit: &Value) -> bool {
     println!("expected knowledge base:\n{}", suiron::format_kb(&expect));
     let path = std::env::temp_dir().join(format!("vh-c21-replay-{}.txt", std::process::id()));
     let mut ok = true;
+    let pre = wit["preloaded"].as_u64().unwrap_or(0) as usize;
     for round in 0..2 {
-        match load_and_compare(&path, &text, &expect) {
+        let kb0 = if pre > 0 { expected_kb(&rules[..pre]).unwrap_or_default() } else { suiron::KnowledgeBase::new() };
+        if pre > 0 {
+            println!("run {}: the first {} rules are already in the knowledge base", round, pre);
+        }
+        match load_into(&path, &text, &expect, kb0) {
             Loaded::Same => println!("run {}: loaded, same knowledge base", round),
             Loaded::Rejected(m) => {
                 println!("run {}: REJECTED: {}", round, m);
